@@ -148,6 +148,7 @@ func runCheck(repo, verif, prop, tier string, verbose, keep bool) int {
 		addViol(Violation{Property: prop, Obligation: "contracts", Kind: "contract-syntax", Status: "error", Reason: e})
 	}
 	p.loadSpecLib(verif)
+	p.groundErr = p.dumpGround(verif)
 	known := loadKnown(verif)
 	p.known = map[string][]KnownFinding{}
 	for _, k := range known {
@@ -155,7 +156,7 @@ func runCheck(repo, verif, prop, tier string, verbose, keep bool) int {
 			p.known[k.Obligation] = append(p.known[k.Obligation], k)
 		}
 	}
-	var units []*Unit
+	var tasks []Task
 	for _, k := range p.cs.Order {
 		ct := p.contracts[k]
 		has := false
@@ -167,18 +168,21 @@ func runCheck(repo, verif, prop, tier string, verbose, keep bool) int {
 		if !has {
 			continue
 		}
-		u := p.verifyUnit(ct)
-		units = append(units, u)
+		tasks = append(tasks, p.unitTasks(ct)...)
+	}
+	cfg := solverCfg(verif, tier, prop)
+	cfg.Known = p.known
+	cfg.Keep = keep
+	all, units := p.runPipeline(cfg, tasks)
+	sort.Slice(units, func(i, j int) bool { return units[i].Name+units[i].Suffix < units[j].Name+units[j].Suffix })
+	for _, u := range units {
 		if u.Err != "" {
-			addViol(Violation{Property: prop, Obligation: u.Name + "#unit", Kind: "undecided", Status: "error",
+			addViol(Violation{Property: prop, Obligation: u.Name + "#unit" + u.Suffix, Kind: "undecided", Status: "error",
 				Reason: "the unit could not be translated: " + u.Err})
 		}
 	}
 	// ground facts / frozen-global checks for this property
 	gobl := p.groundObligations(verif, prop, tier)
-	cfg := solverCfg(verif, tier, prop)
-	cfg.Known = p.known
-	all := discharge(cfg, units)
 	all = append(all, gobl...)
 	sort.Slice(all, func(i, j int) bool { return all[i].Name < all[j].Name })
 
@@ -322,7 +326,7 @@ func finish(verif, prop, tier string, seed int, t0 time.Time, p *Program, units 
 		if u.Ct.IsLemma {
 			mode = "lemma"
 		}
-		fns = append(fns, map[string]interface{}{"unit": u.Name, "mode": mode, "obligations": len(u.Obligs), "split_instances": len(u.Splits)})
+		fns = append(fns, map[string]interface{}{"unit": u.Name, "mode": mode, "obligations": u.NObl, "instance": u.Suffix})
 		for _, t := range u.Trusted {
 			trustedSet[t] = true
 		}
